@@ -1,5 +1,6 @@
 import NetqasmVerif.Driver.Json
 import NetqasmVerif.Model.QubitMgr
+import NetqasmVerif.Model.QubitExec
 import NetqasmVerif.Driver.Template
 open Lean
 namespace NQ.Drv
@@ -89,7 +90,47 @@ def qmRun (c : Cfg) : St → List Op → List Json
     match QM.apply c st op with
     | (st', r) => qmSnap c st op st' r :: (if r.fatal then [] else qmRun c st' ops)
 
+def qubitmgrEvOfJson (j : Json) : Option Ev := do
+  let a ← jArr? j
+  match a.toList with
+  | [t, v] => do
+    let t ← jStr? t
+    let v ← jNat? v
+    if t == "A" then pure (.alloc v) else if t == "F" then pure (.free v)
+    else if t == "U" then pure (.use v) else if t == "D" then pure (.deliver v) else none
+  | [t, x, y] => do
+    let t ← jStr? t
+    let x ← jNat? x
+    let y ← jNat? y
+    if t == "U2" then pure (.use2 x y) else none
+  | _ => none
+
+def qubitmgrXFaultStr : NQ.Bridge9.XFault → String
+  | .deferred => "deferred"
+  | .exec f => f.name
+
+/-- cross-model check: the same event list through C09's `run` and on the executor model -/
+def qubitmgrCross (m : Nat) (evs : List Ev) : Json :=
+  let r1 := run m [] evs
+  let s0 := (NQ.Exec.initApp NQ.Exec.init0 0 m).1
+  let r2 := NQ.Bridge9.execEvs 0 s0 evs
+  let j1 := match r1 with
+    | .ok u => Json.mkObj [("ok", ofNats (qubitmgrSortNats u))]
+    | .error f => Json.mkObj [("fault", Json.str (faultStr f))]
+  let j2 := match r2.2 with
+    | none => Json.mkObj [("ok", ofNats (NQ.Bridge9.allocated r2.1 0))]
+    | some x => Json.mkObj [("fault", Json.str (match NQ.Bridge9.kind x with
+        | some f => faultStr f
+        | none => "other:" ++ qubitmgrXFaultStr x)), ("exec", Json.str (qubitmgrXFaultStr x))]
+  Json.mkObj [("model", j1), ("exec", j2)]
+
 def handleQubitMgr (op : String) (j : Json) : Option Json :=
+  if op == "qm.exec" then do
+    let mq ← (jField? j "maxq").bind jNat?
+    let evs ← (jField? j "evs").bind jArr?
+    let evs ← evs.toList.mapM qubitmgrEvOfJson
+    pure (qubitmgrCross mq evs)
+  else
   if op == "qm.run" then do
     let nv ← (jField? j "nv").bind jBool?
     let tr ← (jField? j "transp").bind jBool?
